@@ -120,9 +120,14 @@ def gen(ctx, n):
                 ctx.add('sd.de', ty, 'bin', '-', expect=['err'], cls='reject:short')
 
 
-def task(prop, seed, size_, cfgbins):
+def make(seed, size_):
     ctx = core.Ctx(seed, prefix='z%d_' % (seed % 100000))
     gen(ctx, max(2, size_ // len(TYPES)))
+    return ctx
+
+
+def task(prop, seed, size_, cfgbins):
+    ctx = make(seed, size_)
     return core.run_and_judge(prop, ctx, cfgbins)
 
 
